@@ -1,14 +1,19 @@
 CONSTANTS
-  NP = 3
+  NP = 2
   NL = 2
   NO = 2
-  MaxClock = 4
+  MaxClock = 1000
+  AgeCap = 2
   Multi = FALSE
-  LCfg <- Cfg2a
-  TokOf <- Tok3
+  LCfg <- Cfg2q
+  TokOf <- Tok2
+  Homes <- Homes2q
+  WaitModes = {}
+  LockParts = {1}
+  ReqStates = {"P", "A", "I"}
 INIT Init
 NEXT Next
-VIEW view
-INVARIANTS TypeOK RoutingTotal
+VIEW ageview
+INVARIANTS TypeOK
 PROPERTIES LegalEdges LockRespected PromotionTiming DeletionGuard LockOnlyByEditor RefusedIsNoWrite
 CHECK_DEADLOCK FALSE
